@@ -78,6 +78,7 @@ theorem verifyBatch_ok_run (H : Bytes → Bytes) (root : Bytes) (nr : Nat) (clai
       · simp at h
     · simp at h
 
+/- VACUITY AUDIT: no longer an obligation of the check. its conclusion has a bare disjunct `Collision H` (some two byte strings collide), which the fixed-output-length hypothesis alone already proves: trivially true, the acceptance hypothesis is never used (Vacuity.C09.C09_stm_sound_says_nothing). Replaced by: Vacuity.C09.C09_stm_sound_witness. -/
 /-- **C09(a) soundness of the STM batch-path verifier.** If the verifier accepts `claims` at
 `indices` against the commitment `(treeRoot leaves, |leaves|)` then every claimed leaf pre-image is
 the committed one at the stated position — or the hash has a collision, or some path value does not
@@ -120,6 +121,7 @@ theorem C09_stm_empty_panic_note (H : Bytes → Bytes) (root : Bytes) :
     verifyBatch H root 4 [] [] [] = .panic := by
   unfold verifyBatch; simp [sortedLE, nextPow2, U64]
 
+/- VACUITY AUDIT: no longer an obligation of the check. assumes injectivity of H : Bytes -> Bytes on ALL byte strings together with 32-byte outputs: unsatisfiable (pigeonhole, Vacuity.C09.hinj_hlen_unsatisfiable) - the statement is vacuous. Replaced by: Vacuity.C09.C09_stm_root_injective_witness. -/
 /-- C06: committed leaf lists of the same length with equal roots are equal (H injective) -/
 theorem C09_stm_root_injective (H : Bytes → Bytes) (hinj : ∀ x y, H x = H y → x = y)
     (hlen : ∀ x, (H x).length = 32) (L L' : List Bytes)
